@@ -12,6 +12,11 @@ from vlib import common
 
 
 def load_prop(pid):
+    import probdiffeq
+
+    repo = os.environ.get("VERIF_REPO", "/repo")
+    if not os.path.realpath(probdiffeq.__file__).startswith(os.path.realpath(repo) + os.sep):
+        raise RuntimeError(f"probdiffeq imported from {probdiffeq.__file__}, expected under {repo}")
     return importlib.import_module(f"vlib.props.{pid.lower()}")
 
 
